@@ -143,6 +143,10 @@ def build(op, seed, variant=0):
     if op == "outer":
         return C(op, teneva.outer, [Y, mk_tt(rng)])
     if op in ("als", "anova", "ANOVA"):
+        if op == "als" and v % 4 == 2:
+            n = [4, 3, 4]                    # rank-adaptive mode needs d >= 3; 20 samples leave index pairs without data
+            d = 3
+            I = mk_idx(rng, n, 5)
         It = cover_idx(rng, n, 20)
         yt = rng.normal(size=len(It))
         if op == "als":
